@@ -325,3 +325,63 @@ def statistics_iadd_ends(c):
     c.ensures(**ens)
     c.mutant("self.total_bp[i] += other.total_bp[i]", "self.total_bp[i] += other.total_bp[0]")
     c.mutant("self.adapter_stats[i][j] += other.adapter_stats[i][j]", "self.adapter_stats[i][j] += other.adapter_stats[i][0]")
+
+
+# ------------------------------------------------------------------------------ per-adapter statistics: __iadd__
+from pyvc.api import KwDictT, Real
+schema("EndStatsAbs")
+MERGED_END = z3.Function("MERGED_END_STATISTICS", I, I, I)
+_install_prev3 = install
+
+
+def install(world):
+    _install_prev3(world)
+    world.handlers[("EndStatsAbs", "__iadd__")] = lambda ex, st, o, a, k, n, s: ObjV(
+        "EndStatsAbs", {"__id__": MERGED_END(o.fields["__id__"], a[0].fields["__id__"])})
+
+
+def adapter_stats_iadd(cls, ends):
+    fields = {e: ObjT("EndStatsAbs") for e in ends}
+    T_ = ObjT(cls, reverse_complemented=Int, **fields)
+
+    @contract("adapters.py", f"{cls}.__iadd__", props=["C20", "C06"])
+    def _c(c):
+        """merging the statistics of two chunks: each end with the same end of the other, counts add up"""
+        c.types(self=T_, other=T_)
+        c.returns(T_)
+        c.modifies = ["self"]
+        c.spec(lambda cx: cx.spec.update(merged_end=lambda a, b: MERGED_END(a.fields["__id__"], b.fields["__id__"])))
+        c.raises("ValueError", when=None)
+        ens = {f"{e}_statistics_merged_with_the_others_{e}": f"self.{e}.__id__ == merged_end(old(self.{e}), other.{e})" for e in ends}
+        ens["reverse_complemented_counts_add_up"] = "self.reverse_complemented == old(self.reverse_complemented) + other.reverse_complemented"
+        c.ensures(**ens)
+        if len(ends) == 2:
+            c.mutant("self.back += other.back", "self.back += other.front")
+        else:
+            c.mutant("self.reverse_complemented += other.reverse_complemented", "self.reverse_complemented = other.reverse_complemented")
+    return _c
+
+
+single_stats_iadd = adapter_stats_iadd("SingleAdapterStatistics", ["end"])
+linked_stats_iadd = adapter_stats_iadd("LinkedAdapterStatistics", ["front", "back"])
+anywhere_stats_iadd = adapter_stats_iadd("AnywhereAdapterStatistics", ["front", "back"])
+
+BasesT = KwDictT(**{k: Int for k in ("A", "C", "G", "T", "")})
+EndT2 = ObjT("EndStatistics", max_error_rate=Real, sequence=Str, effective_length=Int, indels=Bool, adjacent_bases=BasesT)
+
+
+@contract("adapters.py", "EndStatistics.__iadd__", props=["C20", "C06"], name="EndStatistics.__iadd__:adjacent_bases")
+def end_stats_iadd(c):
+    """first part of the merge of two end statistics: only statistics of the same adapter are merged, and the counts of the
+    bases adjacent to 3' matches add up base by base (the length x errors histogram is merged by the loop that follows,
+    which is covered by the command-line comparison of core counts only)"""
+    c.body_until = "for length, error_dict in other.errors.items()"
+    c.types(self=EndT2, other=EndT2)
+    c.modifies = ["self.adjacent_bases"]
+    c.raises("ValueError", when=None)
+    c.raises("RuntimeError", when="self.max_error_rate != other.max_error_rate or not seq_eq(self.sequence, other.sequence) or "
+                                   "self.effective_length != other.effective_length or self.indels != other.indels")
+    c.requires(all_five_keys_present=" and ".join(f"'{k}' in self.adjacent_bases and '{k}' in other.adjacent_bases" for k in ("A", "C", "G", "T", "")))
+    c.ensures(**{("adjacent_" + (k or "none") + "_counts_add_up"): f"self.adjacent_bases['{k}'] == old(self.adjacent_bases)['{k}'] + other.adjacent_bases['{k}']"
+                 for k in ("A", "C", "G", "T", "")})
+    c.mutant("self.adjacent_bases[base] += other.adjacent_bases[base]", "self.adjacent_bases[base] = other.adjacent_bases[base]")
